@@ -921,8 +921,9 @@ KF = {
     "KF07": lambda c, why, im, k_ok: any(w.startswith("errors-not-computable:TypeError") for w in why) and k_ok is not False
                                      and '"dn"' in json.dumps(c["d"]),
     # float(int) overflows for |int| >= 2**1024 in FloatMethod (strict mode)
-    "KF08a": lambda c, why, im, k_ok: _crash(why, "OverflowError") and k_ok is True and "float" in " ".join(c["features"])
-                                      and ("int too large" in im.get("msg", "")),
+    "KF08a": lambda c, why, im, k_ok: (_crash(why, "OverflowError") and k_ok is True and "float" in " ".join(c["features"]) and ("int too large" in im.get("msg", ""))) or
+                                       (c.get("part") == "std-types" and why == ["crash:OverflowError"] and bool({"float", "Decimal"} & set(c["features"]))
+                                        and "int too large to convert to float" in c["first"][1]),
     # unhashable elements where a set is built or uniqueness is tested: Set[List[int]], schema(unique=True) over lists / dicts
     "KF08b": lambda c, why, im, k_ok: _crash(why, "TypeError") and k_ok is not False and im.get("msg", "").startswith("unhashable type")
                                       and ({"set", "frozenset", "clist"} & set(c["features"])),
